@@ -88,6 +88,11 @@ func runC17(c *vk.Ctx) {
 	// the application has registered a custom input format (engine.AddValidInput); what matches neither that nor
 	// the built-in format is still refused
 	vm.RegisterInputValidator(7001, "^#r[0-9]+x[0-9]+$")
+	// ... and once tried to register an expression that does not compile; the registration was refused with an
+	// error, which must be the end of it
+	if err := vm.RegisterInputValidator(7002, "^#(unbalanced[0-9]+$"); err == nil {
+		c.Inconclusive("an expression that does not compile was registered without error")
+	}
 	n := c.N(1200, 40000)
 	for i := 0; i < n; i++ {
 		if !c.Mine(i) {
